@@ -49,6 +49,9 @@ def window_end(hi, coll):
 PANICKING_LAST = {"unwrap", "expect", "unwrap_err", "expect_err", "index", "index_mut", "split_at", "split_at_mut", "split_off", "remove", "swap_remove", "drain",
                   "truncate", "windows", "chunks", "chunks_exact", "copy_from_slice", "step_by", "borrow", "borrow_mut", "abs", "pow", "from_digit", "swap", "rotate_left", "rotate_right",
                   "unwrap_unchecked", "get_unchecked", "from_utf8_unchecked", "insert_str", "replace_range", "repeat",
+                  "insert", "to_digit", "rchunks", "rchunks_exact", "chunks_mut", "chunks_exact_mut", "rchunks_mut", "array_windows", "copy_within", "clone_from_slice", "swap_with_slice",
+                  "select_nth_unstable", "select_nth_unstable_by", "select_nth_unstable_by_key", "div_euclid", "rem_euclid", "ilog", "ilog2", "ilog10", "next_power_of_two", "extend_from_within",
+                  "splice", "strict_add", "strict_sub", "strict_mul", "get_unchecked_mut", "unchecked_add", "unchecked_sub", "unchecked_mul",
                   "with_capacity", "reserve", "reserve_exact", "resize", "set_len", "from_raw_parts", "assume_init", "transmute", "unreachable_unchecked", "exit", "abort"}
 MAP_OK = ("HashMap", "IndexMap", "BTreeMap", "HashSet", "BTreeSet", "hash_map", "btree_map", "indexmap", "VacantEntry", "OccupiedEntry")
 FINITE_ITERS = ("std::slice::Iter", "std::slice::IterMut", "std::str::Chars", "std::str::CharIndices", "std::str::Bytes", "std::str::Split", "std::str::RSplit", "std::str::SplitN", "std::str::RSplitN",
@@ -100,6 +103,8 @@ def sites_of(body):
             elif last in PANICKING_LAST and not t["func"]["local"]:
                 if any(m in nm for m in MAP_OK):
                     continue
+                if last == "insert" and not any(m in nm for m in ("Vec", "String", "VecDeque")):
+                    continue        # Option::insert, set/map insert: no panic; Vec / String / VecDeque::insert(index, ..) panics beyond the end
                 out.append((bb, "call:" + nm))
     return out
 
